@@ -70,7 +70,7 @@ pub fn check(ctx: &mut Ctx, section: &str, prog: &[super::super::ast::S], nkinds
 
 pub fn run(ctx: &mut Ctx) {
     let n = ctx.nshards as u32;
-    drive(ctx, "programs", ctx.tier.pick(80_000, 3_000_000) / n, 16, 600, |ctx, bytes| {
+    drive(ctx, "programs", ctx.tier.pick(160_000, 3_000_000) / n, 16, 600, |ctx, bytes| {
         let (prog, kinds) = gen_program(&bytes[1.min(bytes.len())..], cfg_for(bytes));
         check(ctx, "programs", &prog, kinds.len())
     });
